@@ -2,6 +2,8 @@ package main
 
 import (
 	"fmt"
+	"go/ast"
+	"go/token"
 	"strings"
 
 	"github.com/plgd-dev/go-coap/v3/message"
@@ -9,14 +11,38 @@ import (
 	tcpcoder "github.com/plgd-dev/go-coap/v3/tcp/coder"
 )
 
+// headerChecksTkl reports whether DecodeHeader contains `if tkl > message.MaxTokenSize { return … }`.
+func headerChecksTkl(repo string) bool {
+	_, f := parseFile(repo, "tcp/coder/coder.go")
+	fd := funcDecl(f, "Coder", "DecodeHeader")
+	found := false
+	ast.Inspect(fd.Body, func(n ast.Node) bool {
+		is, ok := n.(*ast.IfStmt)
+		if !ok {
+			return true
+		}
+		c, ok := is.Cond.(*ast.BinaryExpr)
+		if !ok || c.Op != token.GTR || identName(c.X) != "tkl" {
+			return true
+		}
+		if sel, ok := c.Y.(*ast.SelectorExpr); ok && sel.Sel.Name == "MaxTokenSize" {
+			found = true
+		}
+		return true
+	})
+	return found
+}
+
 func init() {
-	register("TcpFraming.lean", func(g *gen, _ string) {
+	register("TcpFraming.lean", func(g *gen, repo string) {
 		var b strings.Builder
 		b.WriteString("namespace CoapVerif.Generated.TcpFraming\n\n")
 		fmt.Fprintf(&b, "/-- tcp/coder/coder.go: MessageLength13Base / 14Base / 15Base -/\ndef len13Base : Nat := %d\ndef len14Base : Nat := %d\ndef len15Base : Nat := %d\n",
 			tcpcoder.MessageLength13Base, tcpcoder.MessageLength14Base, tcpcoder.MessageLength15Base)
 		fmt.Fprintf(&b, "/-- message/option.go: ExtendOption* -/\ndef extByteCode : Nat := %d\ndef extByteAddend : Nat := %d\ndef extWordCode : Nat := %d\ndef extWordAddend : Nat := %d\ndef extError : Nat := %d\n",
 			message.ExtendOptionByteCode, message.ExtendOptionByteAddend, message.ExtendOptionWordCode, message.ExtendOptionWordAddend, message.ExtendOptionError)
+		fmt.Fprintf(&b, "/-- message/message.go: MaxTokenSize (tcp DecodeHeader refuses larger TKL values) -/\ndef maxTokenSize : Nat := %d\n", message.MaxTokenSize)
+		fmt.Fprintf(&b, "/-- tcp/coder/coder.go: DecodeHeader checks `tkl > message.MaxTokenSize` right after the first byte (read from the AST) -/\ndef headerChecksTkl : Bool := %v\n", headerChecksTkl(repo))
 		fmt.Fprintf(&b, "/-- message/codes: signalling codes handled inline by tcp/client/conn.go: handleSignals (CSM, Ping, Pong, Release, Abort) -/\ndef signalCodes : List Nat := [%d, %d, %d, %d, %d]\n",
 			codes.CSM, codes.Ping, codes.Pong, codes.Release, codes.Abort)
 		b.WriteString("\nend CoapVerif.Generated.TcpFraming\n")
